@@ -153,6 +153,16 @@ func genOmCase(r *Rand) omCase {
 		case "iterate_re", "map_re", "filter_re", "src_write":
 			op.Inner = Pick(r, []string{"set", "remove"})
 			op.Key, op.Val = Pick(r, keys), next()
+			if k != "src_write" {
+				// derived stream: the histories of earlier seeds keep their other operations
+				rs := r.Side("reentrant")
+				switch rs.Intn(4) {
+				case 0:
+					op.Inner, op.Mod = "remove_cur", 1+rs.Intn(255)
+				case 1:
+					op.Inner, op.Idx = "remove_at", rs.Intn(4)
+				}
+			}
 		}
 		ops = append(ops, op)
 	}
@@ -441,34 +451,86 @@ func runOmCase(c omCase) (key, what string, step int, ex *Exec) {
 				}
 				maps[ti], refs[ti] = target, tref
 			case "iterate_re", "map_re", "filter_re":
-				// a callback that mutates the map being walked: the statement
-				// defines no semantics, only integrity is checked afterwards.
-				first := true
-				mut := func() {
-					if !first {
-						return
-					}
-					first = false
-					if op.Inner == "set" {
-						m.Set(op.Key, op.Val)
-					} else {
-						m.Remove(op.Key)
+				// a callback that mutates the map being walked. Whether keys added during the
+				// walk are visited is left open; what any reading of "iteration follows first
+				// insertion" keeps is that a key which is live from the start of the walk to its
+				// end is visited exactly once, in first-insertion order, and that the mutations
+				// themselves take effect.
+				liveAtStart := append([]pair(nil), ref.ps...)
+				touched := map[string]bool{}
+				var visits []string
+				type mutation struct {
+					set bool
+					k   string
+					v   int
+				}
+				var done []mutation
+				visit := 0
+				mut := func(cur string) {
+					i := visit
+					visit++
+					visits = append(visits, cur)
+					switch op.Inner {
+					case "set", "remove":
+						if i != 0 {
+							return
+						}
+						if op.Inner == "set" {
+							m.Set(op.Key, op.Val)
+							done = append(done, mutation{true, op.Key, op.Val})
+						} else {
+							m.Remove(op.Key)
+							done = append(done, mutation{false, op.Key, 0})
+						}
+						touched[op.Key] = true
+					case "remove_cur":
+						// removes the key being visited, at the visits selected by the mask
+						if i < 16 && op.Mod>>uint(i)&1 == 1 {
+							m.Remove(cur)
+							done = append(done, mutation{false, cur, 0})
+							touched[cur] = true
+						}
+					case "remove_at":
+						// removes one given key at a later visit
+						if i == op.Idx%4 {
+							m.Remove(op.Key)
+							done = append(done, mutation{false, op.Key, 0})
+							touched[op.Key] = true
+						}
 					}
 				}
 				switch op.Op {
 				case "iterate_re":
-					m.Iterate(func(string, int) { mut() })
+					m.Iterate(func(k string, _ int) { mut(k) })
 				case "map_re":
-					_ = m.Map(func(_ string, v int) int { mut(); return v })
+					_ = m.Map(func(k string, v int) int { mut(k); return v })
 				case "filter_re":
-					_ = m.Filter(func(string, int) bool { mut(); return true })
+					_ = m.Filter(func(k string, _ int) bool { mut(k); return true })
 				}
-				if len(ref.ps) > 0 {
-					if op.Inner == "set" {
-						ref.set(op.Key, op.Val)
+				for _, d := range done {
+					if d.set {
+						ref.set(d.k, d.v)
 					} else {
-						ref.remove(op.Key)
+						ref.remove(d.k)
 					}
+				}
+				var want, got []string
+				for _, pr := range liveAtStart {
+					if !touched[pr.k] {
+						want = append(want, pr.k)
+					}
+				}
+				wantSet := map[string]bool{}
+				for _, k := range want {
+					wantSet[k] = true
+				}
+				for _, k := range visits {
+					if wantSet[k] {
+						got = append(got, k)
+					}
+				}
+				if strings.Join(want, ",") != strings.Join(got, ",") {
+					return fail("visits", fmt.Sprintf("%s with a callback that does %s: keys live throughout the walk are [%s], visited among them [%s]", op.Op, op.Inner, strings.Join(want, ","), strings.Join(got, ",")))
 				}
 			}
 			for j := range maps {
